@@ -1,1 +1,426 @@
-(* stub: to be written by group Csv *)
+(* Table level of acb's transaction CSV: Tx -> CsvTx (tx.rs to_csvtx),
+   CsvTx list -> header + rows with the unused optional columns omitted
+   (tx_csv.rs txs_to_csv_table), header-driven parse of rows to CsvTx
+   (parse_tx_csv, csvtx_from_csv_values) and CsvTx -> Tx (Tx::try_from).
+   The RFC-4180 layer (the csv crate) is a parameter of [write] / [read].
+   Definitions only. *)
+From Coq Require Import List NArith ZArith Bool Arith.
+From ACB Require Import Base.Outcome Model.CsvFields.
+Import ListNotations.
+Local Open Scope N_scope.
+
+(* CurrencyAndExchangeRate *)
+Record car : Type := { c_cur : bytes; c_rate : dec }.
+Definition car_default : car := {| c_cur := s_cad; c_rate := dec_one |}.
+Definition car_is_default (c : car) : bool := cur_is_default (c_cur c).
+
+(* TxActionSpecifics *)
+Inductive cact : Type :=
+| XBuy (sh aps com : dec) (cr : car) (ccr : option car)
+| XSell (sh aps com : dec) (cr : car) (ccr : option car) (sfl : option sflin)
+| XRoc (aps : dec) (cr : car)
+| XSfla (sh aps : dec)
+| XSplit (r : ratio).
+
+(* Tx *)
+Record ctx : Type := {
+  x_sec : bytes; x_td : date; x_sd : date; x_act : cact;
+  x_memo : bytes; x_af : affdata; x_ri : N
+}.
+
+(* CsvTx *)
+Record csvtx : Type := {
+  v_sec : option bytes; v_td : option date; v_sd : option date; v_act : option act;
+  v_sh : option dec; v_aps : option dec; v_com : option dec;
+  v_cur : option bytes; v_fx : option dec; v_ccur : option bytes; v_cfx : option dec;
+  v_memo : option bytes; v_af : option affdata; v_sfl : option sflin;
+  v_ratio : option ratio; v_ri : N
+}.
+
+Definition csvtx_empty : csvtx :=
+  {| v_sec := None; v_td := None; v_sd := None; v_act := None; v_sh := None; v_aps := None;
+     v_com := None; v_cur := None; v_fx := None; v_ccur := None; v_cfx := None;
+     v_memo := None; v_af := None; v_sfl := None; v_ratio := None; v_ri := 0 |}.
+
+Definition rate_opt (c : car) : option dec := if car_is_default c then None else Some (c_rate c).
+
+(* Tx::to_csvtx / populate_csvtx_fields_from_action_specifics *)
+Definition to_csvtx (t : ctx) : csvtx :=
+  let base (a : act) sh aps com cur fx ccur cfx sfl ratio :=
+    {| v_sec := Some (x_sec t); v_td := Some (x_td t); v_sd := Some (x_sd t); v_act := Some a;
+       v_sh := sh; v_aps := aps; v_com := com; v_cur := cur; v_fx := fx; v_ccur := ccur;
+       v_cfx := cfx; v_memo := Some (x_memo t); v_af := Some (x_af t); v_sfl := sfl;
+       v_ratio := ratio; v_ri := x_ri t |} in
+  match x_act t with
+  | XBuy sh aps com cr ccr =>
+      base ABuy (Some sh) (Some aps) (Some com) (Some (c_cur cr)) (rate_opt cr)
+           (option_map c_cur ccr) (match ccr with Some c => rate_opt c | None => None end) None None
+  | XSell sh aps com cr ccr sfl =>
+      base ASell (Some sh) (Some aps) (Some com) (Some (c_cur cr)) (rate_opt cr)
+           (option_map c_cur ccr) (match ccr with Some c => rate_opt c | None => None end) sfl None
+  | XRoc aps cr => base ARoc None (Some aps) None (Some (c_cur cr)) (rate_opt cr) None None None None
+  | XSfla sh aps => base ASfla (Some sh) (Some aps) None None None None None None None
+  | XSplit r => base ASplit None None None None None None None None (Some r)
+  end.
+
+(* CsvCol *)
+Inductive col : Type :=
+| KSec | KTd | KSd | KAct | KSh | KAps | KCom | KCur | KFx | KCcur | KCfx | KSfl | KRatio
+| KAf | KMemo | KLegacy.
+Definition col_eqb (a b : col) : bool :=
+  match a, b with
+  | KSec, KSec | KTd, KTd | KSd, KSd | KAct, KAct | KSh, KSh | KAps, KAps | KCom, KCom
+  | KCur, KCur | KFx, KFx | KCcur, KCcur | KCfx, KCfx | KSfl, KSfl | KRatio, KRatio
+  | KAf, KAf | KMemo, KMemo | KLegacy, KLegacy => true
+  | _, _ => false
+  end.
+Definition col_name (c : col) : bytes :=
+  match c with
+  | KSec => [115;101;99;117;114;105;116;121]
+  | KTd => [116;114;97;100;101;32;100;97;116;101]
+  | KSd => [115;101;116;116;108;101;109;101;110;116;32;100;97;116;101]
+  | KAct => [97;99;116;105;111;110]
+  | KSh => [115;104;97;114;101;115]
+  | KAps => [97;109;111;117;110;116;47;115;104;97;114;101]
+  | KCom => [99;111;109;109;105;115;115;105;111;110]
+  | KCur => [99;117;114;114;101;110;99;121]
+  | KFx => [101;120;99;104;97;110;103;101;32;114;97;116;101]
+  | KCcur => [99;111;109;109;105;115;115;105;111;110;32;99;117;114;114;101;110;99;121]
+  | KCfx => [99;111;109;109;105;115;115;105;111;110;32;101;120;99;104;97;110;103;101;32;114;97;116;101]
+  | KSfl => [115;117;112;101;114;102;105;99;105;97;108;32;108;111;115;115]
+  | KRatio => [115;112;108;105;116;32;114;97;116;105;111]
+  | KAf => [97;102;102;105;108;105;97;116;101]
+  | KMemo => [109;101;109;111]
+  | KLegacy => [100;97;116;101]
+  end.
+(* export_order_non_deprecated_cols *)
+Definition export_cols : list col :=
+  [KSec; KTd; KSd; KAct; KSh; KAps; KCom; KCur; KFx; KCcur; KCfx; KSfl; KRatio; KAf; KMemo].
+Definition all_cols : list col := export_cols ++ [KLegacy].
+Definition col_of_name (s : bytes) : option col := find (fun c => beqb (col_name c) s) all_cols.
+Definition col_optional (c : col) : bool :=
+  match c with KFx | KCcur | KCfx | KSfl | KRatio | KAf => true | _ => false end.
+
+Definition is_some {T} (o : option T) : bool := match o with Some _ => true | None => false end.
+
+(* which optional columns are in use *)
+Definition col_in_use (dflt : affdata) (txs : list csvtx) (c : col) : bool :=
+  match c with
+  | KFx => existsb (fun v => is_some (v_fx v)) txs
+  | KCcur => existsb (fun v => is_some (v_ccur v)) txs
+  | KCfx => existsb (fun v => is_some (v_cfx v)) txs
+  | KSfl => existsb (fun v => is_some (v_sfl v)) txs
+  | KRatio => existsb (fun v => is_some (v_ratio v)) txs
+  | KAf => existsb (fun v => match v_af v with Some a => negb (affdata_eqb a dflt) | None => false end) txs
+  | _ => false
+  end.
+Definition table_header (dflt : affdata) (txs : list csvtx) : list col :=
+  filter (fun c => negb (col_optional c) || col_in_use dflt txs c) export_cols.
+
+Definition oshow {T} (f : T -> bytes) (o : option T) : bytes :=
+  match o with Some v => f v | None => [] end.
+
+Definition cell (v : csvtx) (c : col) : bytes :=
+  match c with
+  | KSec => oshow (fun s => s) (v_sec v)
+  | KTd => oshow show_date (v_td v)
+  | KSd => oshow show_date (v_sd v)
+  | KAct => oshow show_act (v_act v)
+  | KSh => oshow (tsmp 0) (v_sh v)
+  | KAps => oshow (tsmp 2) (v_aps v)
+  | KCom => oshow (tsmp 2) (v_com v)
+  | KCur => oshow (fun s => s) (v_cur v)
+  | KFx => oshow (tsmp 0) (v_fx v)
+  | KCcur => oshow (fun s => s) (v_ccur v)
+  | KCfx => oshow (tsmp 0) (v_cfx v)
+  | KSfl => oshow show_sfl (v_sfl v)
+  | KRatio => oshow show_ratio (v_ratio v)
+  | KAf => oshow a_name (v_af v)
+  | KMemo => oshow (fun s => s) (v_memo v)
+  | KLegacy => []   (* panic!("Invalid col") in the Rust; never in the header *)
+  end.
+
+(* txs_to_csv_table; Affiliate::default() interns the default affiliate (only
+   evaluated when some row carries an affiliate) *)
+Definition csv_table (tbl : aftable) (txs : list csvtx) : (list bytes * list (list bytes)) * aftable :=
+  let uses := existsb (fun v => is_some (v_af v)) txs in
+  let '(dflt, tbl1) := af_default tbl in
+  let hdr := table_header dflt txs in
+  ((map col_name hdr, map (fun v => map (cell v) hdr) txs), if uses then tbl1 else tbl).
+
+(* ---- reading ---- *)
+Definition rej_both_dates : rej := RejParse 21.
+Definition rej_row_len : rej := RejParse 20.
+
+Definition header_cols (hdr : list bytes) : list (option col) :=
+  map (fun h => col_of_name (trim (lower h))) hdr.
+
+(* tx_values of one record: the last non-blank cell of a recognised column wins *)
+Fixpoint row_values (hdr : list (option col)) (row : list bytes) : list (col * bytes) :=
+  match hdr, row with
+  | h :: hr, c :: cr =>
+      let rest := row_values hr cr in
+      let t := trim c in
+      match h with
+      | Some k => if is_nil t then rest else rest ++ [(k, t)]
+      | None => rest
+      end
+  | _, _ => []
+  end.
+(* [row_values] lists later columns first, so the first hit is the last column *)
+Fixpoint lookup (k : col) (vals : list (col * bytes)) : option bytes :=
+  match vals with
+  | [] => None
+  | (k', v) :: r => if col_eqb k k' then Some v else lookup k r
+  end.
+
+Definition opt_parse {T} (f : bytes -> res T) (o : option bytes) : res (option T) :=
+  match o with
+  | Some s => x <- f s ;; Ok (Some x)
+  | None => Ok None
+  end.
+
+(* csvtx_from_csv_values (fields evaluated in the order of the struct literal) *)
+Definition csvtx_from_values (tbl : aftable) (vals : list (col * bytes)) (ri : N)
+  : res (csvtx * aftable) :=
+  let sec := lookup KSec vals in
+  td <- opt_parse parse_date (lookup KTd vals) ;;
+  sd0 <- opt_parse parse_date (lookup KSd vals) ;;
+  sdl <- opt_parse parse_date (lookup KLegacy vals) ;;
+  let sd := match sd0 with Some _ => sd0 | None => sdl end in
+  a <- opt_parse parse_act (lookup KAct vals) ;;
+  sh <- opt_parse parse_dec (lookup KSh vals) ;;
+  aps <- opt_parse parse_dec (lookup KAps vals) ;;
+  com <- opt_parse parse_dec (lookup KCom vals) ;;
+  let cur := option_map currency_new (lookup KCur vals) in
+  fx <- opt_parse parse_dec (lookup KFx vals) ;;
+  let ccur := option_map currency_new (lookup KCcur vals) in
+  cfx <- opt_parse parse_dec (lookup KCfx vals) ;;
+  let memo := lookup KMemo vals in
+  let '(af, tbl1) :=
+    match lookup KAf vals with
+    | Some s => if is_nil (trim s) then (None, tbl)
+                else let '(a, t1) := intern tbl s in (Some a, t1)
+    | None => (None, tbl)
+    end in
+  sfl <- opt_parse parse_sfl (lookup KSfl vals) ;;
+  ratio <- opt_parse parse_ratio (lookup KRatio vals) ;;
+  Ok ({| v_sec := sec; v_td := td; v_sd := sd; v_act := a; v_sh := sh; v_aps := aps;
+         v_com := com; v_cur := cur; v_fx := fx; v_ccur := ccur; v_cfx := cfx;
+         v_memo := memo; v_af := af; v_sfl := sfl; v_ratio := ratio; v_ri := ri |}, tbl1).
+
+Fixpoint parse_rows (tbl : aftable) (hdr : list (option col)) (rows : list (list bytes)) (ri : N)
+  : res (list csvtx * aftable) :=
+  match rows with
+  | [] => Ok ([], tbl)
+  | r :: rest =>
+      if negb (length r =? length hdr)%nat then Rej rej_row_len else
+      '(v, tbl1) <- csvtx_from_values tbl (row_values hdr r) ri ;;
+      '(vs, tbl2) <- parse_rows tbl1 hdr rest (ri + 1) ;;
+      Ok (v :: vs, tbl2)
+  end.
+
+Definition has_col (k : col) (hdr : list (option col)) : bool :=
+  existsb (fun h => match h with Some k' => col_eqb k k' | None => false end) hdr.
+
+(* parse_tx_csv *)
+Definition parse_table (tbl : aftable) (header : list bytes) (rows : list (list bytes)) (ri0 : N)
+  : res (list csvtx * aftable) :=
+  let hdr := header_cols header in
+  if has_col KSd hdr && has_col KLegacy hdr then Rej rej_both_dates
+  else parse_rows tbl hdr rows ri0.
+
+(* get_valid_exchange_rate *)
+Definition valid_exchange_rate (cur : option bytes) (fx : option dec) : res (option car) :=
+  match cur, fx with
+  | None, None => Ok None
+  | None, Some _ => Rej (RejParse 11)
+  | Some c, _ =>
+      if cur_is_default c && negb (is_some fx) then Ok (Some car_default) else
+      match fx with
+      | None => Rej (RejParse 12)
+      | Some r =>
+          if negb (dec_pos r) then Rej (RejParse 13)
+          else if cur_is_default c && negb (dec_is_one r) then Rej (RejParse 14)
+          else Ok (Some {| c_cur := c; c_rate := r |})
+      end
+  end.
+
+Definition or_default (o : option car) : car := match o with Some c => c | None => car_default end.
+Definition req {T} (o : option T) (code : N) : res T :=
+  match o with Some v => Ok v | None => Rej (RejParse code) end.
+
+(* buy_or_sell_common_attrs_from_csv_tx *)
+Definition common_attrs (v : csvtx) : res (dec * dec * dec * car * option car) :=
+  sh <- req (v_sh v) 15 ;;
+  aps <- req (v_aps v) 16 ;;
+  let com := match v_com v with Some c => c | None => dec_zero end in
+  cr <- valid_exchange_rate (v_cur v) (v_fx v) ;;
+  ccr <- valid_exchange_rate (v_ccur v) (v_cfx v) ;;
+  if negb (dec_pos sh) then Rej (RejParse 17)
+  else if negb (dec_gez aps) then Rej (RejParse 18)
+  else if negb (dec_gez com) then Rej (RejParse 19)
+  else Ok (sh, aps, com, or_default cr, ccr).
+
+(* Tx::try_from(CsvTx) *)
+Definition tx_try_from (tbl : aftable) (v : csvtx) : res (ctx * aftable) :=
+  match v_act v with
+  | None => Rej (RejParse 10)
+  | Some a =>
+      specs <-
+        match a with
+        | ABuy => '(sh, aps, com, cr, ccr) <- common_attrs v ;; Ok (XBuy sh aps com cr ccr)
+        | ASell => '(sh, aps, com, cr, ccr) <- common_attrs v ;; Ok (XSell sh aps com cr ccr (v_sfl v))
+        | ARoc =>
+            aps <- req (v_aps v) 16 ;;
+            if negb (dec_gez aps) then Rej (RejParse 18) else
+            if is_some (v_sh v) then Rej (RejParse 22) else
+            cr <- valid_exchange_rate (v_cur v) (v_fx v) ;;
+            Ok (XRoc aps (or_default cr))
+        | ASfla =>
+            aps <- req (v_aps v) 16 ;;
+            sh <- req (v_sh v) 15 ;;
+            cr <- valid_exchange_rate (v_cur v) (v_fx v) ;;
+            if match cr with Some c => negb (car_is_default c) | None => false end
+            then Rej (RejParse 23)
+            else if negb (dec_pos sh) then Rej (RejParse 17)
+            else if negb (dec_pos aps) then Rej (RejParse 18)
+            else Ok (XSfla sh aps)
+        | ASplit => r <- req (v_ratio v) 24 ;; Ok (XSplit r)
+        end ;;
+      sec <- req (v_sec v) 25 ;;
+      td <- req (v_td v) 26 ;;
+      sd <- req (v_sd v) 27 ;;
+      let memo := match v_memo v with Some m => m | None => [] end in
+      let '(af, tbl1) :=
+        match v_af v with
+        | Some a => (a, tbl)
+        | None => match a with ASplit => af_global tbl | _ => af_default tbl end
+        end in
+      if is_nil sec then Rej (RejParse 28) else
+      Ok ({| x_sec := sec; x_td := td; x_sd := sd; x_act := specs; x_memo := memo;
+             x_af := af; x_ri := v_ri v |}, tbl1)
+  end.
+
+Fixpoint txs_try_from (tbl : aftable) (vs : list csvtx) : res (list ctx * aftable) :=
+  match vs with
+  | [] => Ok ([], tbl)
+  | v :: r =>
+      '(t, tbl1) <- tx_try_from tbl v ;;
+      '(ts, tbl2) <- txs_try_from tbl1 r ;;
+      Ok (t :: ts, tbl2)
+  end.
+
+(* header + cells of a transaction list, and back *)
+Definition write_table (tbl : aftable) (txs : list ctx) :=
+  csv_table tbl (map to_csvtx txs).
+Definition read_table (tbl : aftable) (header : list bytes) (rows : list (list bytes))
+  : res (list ctx * aftable) :=
+  '(vs, tbl1) <- parse_table tbl header rows 0 ;;
+  txs_try_from tbl1 vs.
+
+(* the byte level: csv::Writer::write_record / csv::Reader with headers *)
+Section CsvLayer.
+  Variable csv_write : list (list bytes) -> bytes.
+  Variable csv_read : bytes -> res (list (list bytes)).
+
+  (* write_txs_to_csv (of the CsvTx of each Tx) *)
+  Definition write (tbl : aftable) (txs : list ctx) : bytes * aftable :=
+    let '((h, rows), tbl1) := write_table tbl txs in (csv_write (h :: rows), tbl1).
+  (* parse_tx_csv followed by Tx::try_from on every row *)
+  Definition read (tbl : aftable) (b : bytes) : res (list ctx * aftable) :=
+    recs <- csv_read b ;;
+    match recs with
+    | [] => Ok ([], tbl)
+    | h :: rows => read_table tbl h rows
+    end.
+End CsvLayer.
+
+(* ---- executable validity of a transaction list (the domain of C11) ---- *)
+Definition valid_dec (d : dec) : bool :=
+  (d_mant d <=? max_mant) && (d_scale d <=? 28)%nat && negb (d_neg d && (d_mant d =? 0)).
+(* a security: non-empty and without surrounding white space *)
+Definition valid_sec (s : bytes) : bool := negb (is_nil s) && beqb (trim s) s.
+(* a Currency value: as produced by Currency::new on ASCII text *)
+Definition valid_cur (c : bytes) : bool :=
+  negb (is_nil c) && is_ascii c && beqb (upper c) c && beqb (trim c) c.
+Definition valid_car (c : car) : bool :=
+  valid_cur (c_cur c) && valid_dec (c_rate c) && dec_pos (c_rate c)
+  && (negb (car_is_default c) || dec_is_one (c_rate c)).
+Definition valid_ocar (o : option car) : bool := match o with Some c => valid_car c | None => true end.
+(* an Affiliate: interned in the process table, written name parses to its id *)
+Definition valid_aff (tbl : aftable) (a : affdata) : bool :=
+  match tbl_find (a_id a) tbl with Some b => affdata_eqb a b | None => false end
+  && negb (is_nil (a_name a)) && beqb (trim (a_name a)) (a_name a)
+  && beqb (a_id (from_strep_data (a_name a))) (a_id a).
+Definition valid_sfl (v : sflin) : bool := valid_dec (sf_val v) && dec_lez (sf_val v).
+Definition int_part (d : dec) : N := d_mant d / pow10 (d_scale d).
+(* a SplitRatio: the invariants of SplitRatio::parse (integer-only flag only
+   on whole-number reverse splits) and terms whose "{:.1}" rendering fits *)
+Definition valid_ratio (r : ratio) : bool :=
+  valid_dec (r_post r) && valid_dec (r_pre r) && dec_pos (r_post r) && dec_pos (r_pre r)
+  && (negb (r_rio r) || (ratio_is_reverse r && dec_is_integer (r_post r) && dec_is_integer (r_pre r)))
+  && (negb (dec_is_integer (r_post r) && dec_is_integer (r_pre r) && ratio_is_reverse r && negb (r_rio r))
+      || ((int_part (r_post r) * 10 <=? max_mant) && (int_part (r_pre r) * 10 <=? max_mant))).
+Definition valid_act (a : cact) : bool :=
+  match a with
+  | XBuy sh aps com cr ccr =>
+      valid_dec sh && dec_pos sh && valid_dec aps && dec_gez aps && valid_dec com && dec_gez com
+      && valid_car cr && valid_ocar ccr
+  | XSell sh aps com cr ccr sfl =>
+      valid_dec sh && dec_pos sh && valid_dec aps && dec_gez aps && valid_dec com && dec_gez com
+      && valid_car cr && valid_ocar ccr && match sfl with Some v => valid_sfl v | None => true end
+  | XRoc aps cr => valid_dec aps && dec_gez aps && valid_car cr
+  | XSfla sh aps => valid_dec sh && dec_pos sh && valid_dec aps && dec_pos aps
+  | XSplit r => valid_ratio r
+  end.
+Definition valid_tx (tbl : aftable) (t : ctx) : bool :=
+  valid_sec (x_sec t) && valid_date (x_td t) && valid_date (x_sd t) && valid_act (x_act t)
+  && valid_aff tbl (x_af t).
+
+(* ---- "the same transaction" after a round trip ---- *)
+Definition dec_eqv (a b : dec) : bool := Bool.eqb (d_neg a) (d_neg b) && mag_eqb a b.
+Definition car_eqv (a b : car) : bool := beqb (c_cur a) (c_cur b) && dec_eqv (c_rate a) (c_rate b).
+Definition ocar_eqv (a b : option car) : bool :=
+  match a, b with Some x, Some y => car_eqv x y | None, None => true | _, _ => false end.
+Definition sfl_eqv (a b : option sflin) : bool :=
+  match a, b with
+  | Some x, Some y => dec_eqv (sf_val x) (sf_val y) && Bool.eqb (sf_force x) (sf_force y)
+  | None, None => true
+  | _, _ => false
+  end.
+Definition ratio_eqv (a b : ratio) : bool :=
+  dec_eqv (r_post a) (r_post b) && dec_eqv (r_pre a) (r_pre b) && Bool.eqb (r_rio a) (r_rio b).
+Definition act_eqv (a b : cact) : bool :=
+  match a, b with
+  | XBuy s1 p1 c1 r1 q1, XBuy s2 p2 c2 r2 q2 =>
+      dec_eqv s1 s2 && dec_eqv p1 p2 && dec_eqv c1 c2 && car_eqv r1 r2 && ocar_eqv q1 q2
+  | XSell s1 p1 c1 r1 q1 f1, XSell s2 p2 c2 r2 q2 f2 =>
+      dec_eqv s1 s2 && dec_eqv p1 p2 && dec_eqv c1 c2 && car_eqv r1 r2 && ocar_eqv q1 q2 && sfl_eqv f1 f2
+  | XRoc p1 r1, XRoc p2 r2 => dec_eqv p1 p2 && car_eqv r1 r2
+  | XSfla s1 p1, XSfla s2 p2 => dec_eqv s1 s2 && dec_eqv p1 p2
+  | XSplit r1, XSplit r2 => ratio_eqv r1 r2
+  | _, _ => false
+  end.
+Definition is_xsplit (a : cact) : bool := match a with XSplit _ => true | _ => false end.
+Definition date_eqb (a b : date) : bool :=
+  (dt_y a =? dt_y b) && (dt_m a =? dt_m b) && (dt_d a =? dt_d b).
+Definition s_default_id : bytes := lower s_default.
+Definition aff_is_default (a : affdata) : bool := beqb (a_id a) s_default_id.
+(* no transaction names an affiliate other than the default one *)
+Definition no_named_affiliate (txs : list ctx) : bool := forallb (fun t => aff_is_default (x_af t)) txs.
+(* [t'] is [t] read back: same security, dates, action with numerically equal
+   decimals (same sign), same currencies, same force flag and integer-only
+   flag, memo trimmed, same affiliate - except that a split of the default
+   affiliate comes back as a split of all affiliates when [glob_ok] (no row
+   names another affiliate) *)
+Definition tx_same (glob_ok : bool) (t t' : ctx) : bool :=
+  beqb (x_sec t) (x_sec t') && date_eqb (x_td t) (x_td t') && date_eqb (x_sd t) (x_sd t')
+  && act_eqv (x_act t) (x_act t') && beqb (trim (x_memo t)) (x_memo t')
+  && (affdata_eqb (x_af t) (x_af t')
+      || (glob_ok && is_xsplit (x_act t) && aff_is_default (x_af t) && aff_is_global (x_af t'))).
+
+(* the class on which the second-generation bytes differ from the first:
+   a memo with surrounding white space (written as is, read trimmed) *)
+Definition K_memo_untrimmed (txs : list ctx) : bool :=
+  existsb (fun t => negb (beqb (trim (x_memo t)) (x_memo t))) txs.
